@@ -260,10 +260,67 @@ var condDeclRe = regexp.MustCompile(`^\(define-fun ((?:c|case|guard)![0-9]+) \(\
 // of the function (the named Bool definitions c!N / case!N / guard!N): PC ∧ c ⊢ G and PC ∧ ¬c ⊢ G.
 // Both halves unsat means the obligation holds; merged (ite) states with nonlinear arithmetic are
 // often only tractable this way.
-func splitDischarge(o *Obligation, dir string, timeoutS int) (SolverResult, bool) {
+func splitDischarge(o *Obligation, dir string, timeoutS int, focusOnly bool) (SolverResult, bool) {
+	// one case of a split: the focused query first (short), then the ordinary one
+	caseOf := func(extra, tag string) SolverResult {
+		o2 := *o
+		o2.Extra = append(append([]string(nil), o.Extra...), extra)
+		if len(o.PC) > 40 {
+			of := o2
+			of.Focus = true
+			if r := quickSolve(buildQuery(&of, true, false), dir, o.Name+"-"+tag+"-focus", min(15, timeoutS)); r.Result == "unsat" {
+				r.Solver += "(focused)"
+				return r
+			}
+		}
+		if focusOnly {
+			return SolverResult{Result: "unknown"}
+		}
+		r, _ := discharge(buildQuery(&o2, true, false), dir, o.Name+"-"+tag, timeoutS, false)
+		return r
+	}
+	// (a) the join the obligation sits behind: the last path conjunct that is a disjunction of named
+	// branch conditions, one case per disjunct (complete: the disjunction is itself assumed)
+	for i := len(o.PC) - 1; i >= 0 && i >= len(o.PC)-60; i-- {
+		p := o.PC[i]
+		if !strings.HasPrefix(p, "(or ") {
+			continue
+		}
+		alts := strings.Fields(strings.TrimSuffix(strings.TrimPrefix(p, "(or "), ")"))
+		okShape := len(alts) >= 2 && len(alts) <= 8
+		for _, a := range alts {
+			if strings.ContainsAny(a, "()") {
+				okShape = false
+			}
+		}
+		if !okShape {
+			continue
+		}
+		var total int64
+		all := true
+		solver := ""
+		for k, a := range alts {
+			r := caseOf(a, fmt.Sprintf("join%d", k))
+			total += r.Ms
+			if r.Result != "unsat" {
+				all = false
+				break
+			}
+			solver = r.Solver
+		}
+		if all {
+			return SolverResult{Solver: solver + "+split(join)", Result: "unsat", Ms: total}, true
+		}
+		break
+	}
+	if focusOnly {
+		return SolverResult{}, false
+	}
+	// (b) a binary split on one of the last branch conditions the obligation depends on
+	cone := o.Ctx.coneOf(o)
 	var conds []string
 	for _, d := range o.Ctx.decls {
-		if m := condDeclRe.FindStringSubmatch(d); m != nil {
+		if m := condDeclRe.FindStringSubmatch(d); m != nil && cone[m[1]] {
 			conds = append(conds, m[1])
 		}
 	}
@@ -275,9 +332,7 @@ func splitDischarge(o *Obligation, dir string, timeoutS int) (SolverResult, bool
 		ok := true
 		solver := ""
 		for k, extra := range []string{conds[i], "(not " + conds[i] + ")"} {
-			o2 := *o
-			o2.Extra = []string{extra}
-			r, _ := discharge(buildQuery(&o2, true, false), dir, fmt.Sprintf("%s-split%d-%d", o.Name, i, k), timeoutS, false)
+			r := caseOf(extra, fmt.Sprintf("split%d-%d", i, k))
 			total += r.Ms
 			if r.Result != "unsat" {
 				ok = false
